@@ -563,3 +563,52 @@ def c24(res, tier, seed):
             res.fail(dict(fmt="f32bits", bits=bits, _module="codec"), "float32 bit pattern does not survive prototext Marshal/Unmarshal")
     res.extra["float32_patterns_swept"] = swept
     res.evaluations += swept
+
+
+# ============================================================================ C46: legacy (struct-tag-only) messages
+MODULE_OF["C46"] = "hist"
+HARNESS_PKGS["C46"] = ("msg", "legacy")
+LEG2 = ["proto2_20160225", "proto2_20160519", "proto2_20180125", "proto2_20180430", "proto2_20180814", "proto2_20190205"]
+LEG3 = ["proto3_20160225", "proto3_20160519", "proto3_20180125", "proto3_20180430", "proto3_20180814", "proto3_20190205"]
+legname = lambda g: "google.golang.org.%s.Message" % g
+
+
+@check("C46")
+def c46(res, tier, seed):
+    b = build_harness(("msg", "legacy"))
+    # every generation of the schema (and dynamicpb over each derived descriptor) is one more implementation of the SAME specification
+    f2 = [(legname(g), False) for g in (LEG2 if tier != "quick" else [LEG2[0], LEG2[3], LEG2[5]])] + [(legname(LEG2[5]), True), (legname(LEG2[0]), True)]
+    f3 = [(legname(g), False) for g in (LEG3 if tier != "quick" else [LEG3[0], LEG3[5]])] + [(legname(LEG3[0]), True)]
+    mc(res, b, "legacy2", legname(LEG2[5]), [101, 113, 114, 116, 120, 212, 501, 516, 613, 616, 701], ["rt", "clone", "merge", "equal", "checkinit"], 2,
+       nest_at=116, nest_fields=[1, 3], flavs=f2)
+    mc(res, b, "legacy3", legname(LEG3[5]), [101, 201, 300], ["rt", "clone", "merge", "equal"], 2, flavs=f3)
+    types = [legname(g) for g in LEG2 + LEG3] + [legname(g) + ":dyn" for g in (LEG2[0], LEG2[5], LEG3[0], LEG3[5])]
+    os.environ["VERIF_MIX"] = "mut=10,marshal=3,size=1,unmarshal=3,rt=3,merge=2,clone=2,equal=2,checkinit=2,umerge=1,cat=1"
+    try:
+        drive_hist(res, b, seed, 240 if tier == "quick" else 8000, types=types, shards=3, label="hist-legacy", pkgs=("msg", "legacy"))
+    finally:
+        os.environ.pop("VERIF_MIX", None)
+    # derived descriptors: all generations of one syntax must yield the same descriptor (relative names), newest generation = reference
+    trace = os.path.join(scratch(), "legacydesc.ndjson")
+    with open(trace, "w") as out:
+        for g in [LEG2[5]] + LEG2[:5] + LEG3:
+            inp = os.path.join(scratch(), "ld.in")
+            with open(inp, "w") as fh:
+                fh.write(json.dumps({"gen": g}) + "\n")
+            harness(b, ["exec", "legacydesc", inp, inp + ".out"])
+            out.write(open(inp + ".out").read())
+    # proto3 generations have no proto2 reference entries: validate the two syntaxes separately (first line = reference)
+    lines = open(trace).read().splitlines()
+    for part, label in ((lines[:6], "proto2"), (lines[6:], "proto3")):
+        tp = trace + "." + label
+        with open(tp, "w") as fh:
+            fh.write("\n".join(part) + "\n")
+        total, bad = validate_trace("FirstUseMemo", tp, shards=1)
+        for i in bad:
+            ev = json.loads(part[i])
+            res.fail(dict(gen=ev["gen"], _module="legacydesc"), "derived descriptor of this generation differs from the reference generation")
+        res.traces += total
+    res.rule = ("tour: bounded histories over a sub-view of the legacy Message schema replayed on every historical generation (wrapped legacy "
+                "code) and on dynamicpb over the derived descriptors; driver: random histories on all twelve generations validated by "
+                "Trace_PbObject; derived descriptors of all generations of a syntax memoised against the newest one; distinct = (generation, "
+                "flavour, operation, field)")
